@@ -8,6 +8,7 @@ package main
 
 import (
 	"strings"
+	"unicode/utf8"
 
 	"gopkg.in/yaml.v3"
 )
@@ -263,7 +264,31 @@ func c07Emit(root *c07Node) string {
 	} else {
 		e.blockSeq(root, root.ind)
 	}
-	return e.b.String()
+	src := e.b.String()
+	c07CharColumns(root, strings.Split(src, "\n"))
+	return src
+}
+
+// c07CharColumns converts the byte columns recorded while writing into character columns (the
+// unit of the YAML library and of the diagnostics); they differ on lines holding non-ASCII text.
+func c07CharColumns(n *c07Node, lines []string) {
+	if n == nil {
+		return
+	}
+	conv := func(p *Pos) {
+		if p.Line >= 1 && p.Line <= len(lines) && p.Col >= 1 && p.Col-1 <= len(lines[p.Line-1]) {
+			p.Col = utf8.RuneCountInString(lines[p.Line-1][:p.Col-1]) + 1
+		}
+	}
+	conv(&n.pos)
+	conv(&n.propPos)
+	for _, en := range n.ents {
+		c07CharColumns(en.k, lines)
+		c07CharColumns(en.v, lines)
+	}
+	for _, it := range n.items {
+		c07CharColumns(it, lines)
+	}
 }
 
 // c07Path returns the chain of nodes from the root to target (inclusive); for a key node the
